@@ -1,5 +1,3 @@
-//go:build verif_c18
-
 package harness
 
 // C18 — NNS accepts exactly well-formed names and record data.
@@ -17,8 +15,9 @@ package harness
 // cases_C18*.v let Coq compare (1) the implementation with the model
 // (definitions M*), and (2) the implementation with the boolean version of
 // the grammar, which Proofs/NNSSyntaxBool.v proves equivalent to the
-// declarative one (definitions MG*); the only tolerated difference is the
-// shape of finding F12, which the Go monitor reports through AddKnown.
+// declarative one (definitions MG*).  Finding F12 (seven groups followed by
+// "::" rejected) is repaired by 7bd3a2c; the Go monitor reports its signature
+// as a violation should it come back.
 
 import (
 	"bytes"
@@ -40,23 +39,21 @@ import (
 	"github.com/stretchr/testify/require"
 )
 
-const c18Known = "C18/ipv6-seven-groups-compression"
-
-// nnsEnv is a chain with the NNS contract of the working tree, TLD "com",
+// c18Env is a chain with the NNS contract of the working tree, TLD "com",
 // domain "add.com" without records and domain "set.com" with one record of
 // every data type at id 0, both owned by the validator.
-type nnsEnv struct {
+type c18Env struct {
 	*Env
 	nns    util.Uint160
 	owner  neotest.Signer
 	faults map[string]int
 }
 
-func newNNSEnv(t testing.TB) *nnsEnv {
+func newC18Env(t testing.TB) *c18Env {
 	v := NewEnv(t)
 	ctr := v.Compile("nns")
 	v.E.DeployContract(t, ctr, nil)
-	n := &nnsEnv{Env: v, nns: ctr.Hash, owner: v.E.Validator, faults: map[string]int{}}
+	n := &c18Env{Env: v, nns: ctr.Hash, owner: v.E.Validator, faults: map[string]int{}}
 	year := int64(365 * 24 * 3600)
 	r := v.Invoke([]neotest.Signer{v.E.Committee}, n.nns, "registerTLD", "com", "a@b.c", int64(101), int64(102), 100*year, int64(104))
 	require.True(t, r.Halt, r.Fault)
@@ -78,7 +75,7 @@ func newNNSEnv(t testing.TB) *nnsEnv {
 
 // try runs a test invocation signed (Global) by signer; "" on HALT, the fault
 // text otherwise.
-func (n *nnsEnv) try(signer util.Uint160, method string, args ...any) string {
+func (n *c18Env) try(signer util.Uint160, method string, args ...any) string {
 	tx := n.E.NewUnsignedTx(n.T, n.nns, method, args...)
 	tx.Signers = []transaction.Signer{{Account: signer, Scopes: transaction.Global}}
 	b := n.E.NewUnsignedBlock(n.T, tx)
@@ -97,7 +94,7 @@ var c18Quoted = regexp.MustCompile(`unhandled exception: "([^"]*)"`)
 // classify maps an outcome to 'T', 'F' or 'X'. checkMsgs are the panics of
 // the syntactic check itself, laterMsgs the panics that can only be reached
 // after it succeeded.
-func (n *nnsEnv) classify(fault string, checkMsgs, laterMsgs, insideMsgs []string) byte {
+func (n *c18Env) classify(fault string, checkMsgs, laterMsgs, insideMsgs []string) byte {
 	if fault == "" {
 		return 'T'
 	}
@@ -137,29 +134,29 @@ var (
 	c18RegTLDLater = []string{"not a TLD", "TLD already exists"}
 )
 
-func (n *nnsEnv) isAvailable(s []byte) byte {
+func (n *c18Env) isAvailable(s []byte) byte {
 	return n.classify(n.try(n.owner.ScriptHash(), "isAvailable", s), c18NameCheck, c18AvailLater, c18NameInside)
 }
-func (n *nnsEnv) register(s []byte) byte {
+func (n *c18Env) register(s []byte) byte {
 	return n.classify(n.try(n.owner.ScriptHash(), "register", s, n.owner.ScriptHash(), "a@b.c", int64(1), int64(2), int64(3000000), int64(4)),
 		c18NameCheck, c18RegLater, c18NameInside)
 }
-func (n *nnsEnv) registerTLD(s []byte) byte {
+func (n *c18Env) registerTLD(s []byte) byte {
 	return n.classify(n.try(n.E.CommitteeHash, "registerTLD", s, "a@b.c", int64(1), int64(2), int64(3000000), int64(4)),
 		c18NameCheck, c18RegTLDLater, c18NameInside)
 }
-func (n *nnsEnv) addRecord(typ int64, s []byte) byte {
+func (n *c18Env) addRecord(typ int64, s []byte) byte {
 	return n.classify(n.try(n.owner.ScriptHash(), "addRecord", "add.com", typ, s), c18RecCheck, nil, c18RecInside)
 }
-func (n *nnsEnv) setRecord(typ int64, s []byte) byte {
+func (n *c18Env) setRecord(typ int64, s []byte) byte {
 	// a type without a record at id 0 reaches "invalid record id" after the check
-	return n.classify(n.try(n.owner.ScriptHash(), "setRecord", "set.com", typ, int64(0), s), c18RecCheck, []string{"invalid record id"}, c18RecInside)
+	return n.classify(n.try(n.owner.ScriptHash(), "setRecord", "set.com", typ, int64(0), s), c18RecCheck, []string{"invalid record id", "record already exists"}, c18RecInside)
 }
 
 // ---------------------------------------------------------------------------
 // Coq output
 
-func packString(s []byte) string {
+func c18Pack(s []byte) string {
 	if len(s) == 0 {
 		return "[]"
 	}
@@ -176,20 +173,20 @@ func packString(s []byte) string {
 	return "[" + strings.Join(ws, ";") + "]"
 }
 
-// rowsWriter emits packed strings as named rows of at most 200 strings.
-type rowsWriter struct {
+// c18Rows emits packed strings as named rows of at most 200 strings.
+type c18Rows struct {
 	sb   strings.Builder
 	next int
 }
 
-func (w *rowsWriter) rows(ss [][]byte) string {
+func (w *c18Rows) rows(ss [][]byte) string {
 	var names []string
 	for i := 0; i < len(ss); i += 200 {
 		name := fmt.Sprintf("r%d", w.next)
 		w.next++
 		parts := make([]string, 0, 200)
 		for _, s := range ss[i:min(i+200, len(ss))] {
-			parts = append(parts, packString(s))
+			parts = append(parts, c18Pack(s))
 		}
 		fmt.Fprintf(&w.sb, "Definition %s : list (list int) := [%s].\n", name, strings.Join(parts, ";\n"))
 		names = append(names, name)
@@ -199,7 +196,7 @@ func (w *rowsWriter) rows(ss [][]byte) string {
 
 const c18Header = "From Verif Require Import Base.Prelude Model.NNSSyntax Spec.Grammar Model.NNSSyntaxRun.\nFrom Coq Require Import Uint63.\nLocal Open Scope uint63_scope.\n"
 
-func obsLit(o byte) string {
+func c18ObsLit(o byte) string {
 	switch o {
 	case 'T':
 		return "VBool true"
@@ -519,7 +516,8 @@ func c18Random(rng *rand.Rand, count int) []c18Case {
 }
 
 // ---------------------------------------------------------------------------
-// F12 signature (the only grammar knowledge on the Go side)
+// Signature of the repaired finding F12 (the only grammar knowledge on the Go
+// side): seven hexadecimal groups followed by "::", global unicast.
 
 var c18SevenGroups = regexp.MustCompile(`^([0-9a-fA-F]{1,4}:){6}[0-9a-fA-F]{1,4}::$`)
 
@@ -539,7 +537,7 @@ func c18IsF12(s string) bool {
 // ---------------------------------------------------------------------------
 
 func TestC18(t *testing.T) {
-	n := newNNSEnv(t)
+	n := newC18Env(t)
 	st := NewStats("C18")
 	out := OutDir()
 	thorough := Tier() == "thorough"
@@ -570,8 +568,9 @@ func TestC18(t *testing.T) {
 			kind = "other-type"
 		}
 		st.OutcomeHistogram[kind+"/"+map[byte]string{'T': "accepted", 'F': "rejected", 'X': "fault-in-check", '?': "unexpected"}[o]]++
-		if typ == 28 && o == 'F' && c18IsF12(string(s)) {
-			st.AddKnown(c18Known)
+		if typ == 28 && o != 'T' && c18IsF12(string(s)) {
+			st.AddViolation(fmt.Sprintf("the global unicast address %q (seven groups and \"::\" for one zero group, RFC 4291 2.2 form 2) is refused as AAAA data", s),
+				map[string]any{"type": typ, "data": string(s), "data_hex": Hex(s)})
 		}
 	}
 	evalOne := func(typ int64, s []byte, all bool) byte {
@@ -615,7 +614,10 @@ func TestC18(t *testing.T) {
 	for _, s := range []string{"+1.2.3.4", "1.+2.3.4", "+1.+2.+3.+4"} { // F10 (repaired by 0620db8)
 		listed = append(listed, c18Case{1, s})
 	}
-	for _, s := range []string{"2001:800::1", "2001:8000::1", "2001:db9::1", "2003:1:2:3:4:5:6::"} { // F11 (repaired by 131c44b), F12
+	for _, s := range []string{"2001:800::1", "2001:8000::1", "2001:db9::1", // F11 (repaired by 131c44b)
+		"2003:1:2:3:4:5:6::", "3fff:ffff:ffff:ffff:ffff:ffff:ffff::", "2001:200:2:3:4:5:6::", "2001:db8:2:3:4:5:6::", "2001:1ff:2:3:4:5:6::", // F12 (repaired by 7bd3a2c)
+		"::1:2:3:4:5:6:7", "::2003:1:2:3:4:5:6", "::1:2:3:4:5:6:7:8", "1:2:3:4:5:6:7:8::", "2003:1:2:3:4:5:6:::", "2003:1:2:3:4:5::7::", "2003::2:3:4:5:6:7::",
+		"::2003:1:2:3:4:5::", "2003:1:2:3:4:5:6::8", "2003:1:2:3::5:6:7:8", ":2003:1:2:3:4:5:6::", "2003:1:2:3:4:5:6:: "} {
 		listed = append(listed, c18Case{28, s})
 	}
 	for _, s := range c18IPv4Mutations() {
@@ -665,7 +667,7 @@ func TestC18(t *testing.T) {
 	sort.Strings(gkeys)
 	// several files when the packed strings exceed ~450 kB
 	fileNo := 0
-	flush := func(w *rowsWriter, gl []string) {
+	flush := func(w *c18Rows, gl []string) {
 		name := "cases_C18.v"
 		if fileNo > 0 {
 			name = fmt.Sprintf("cases_C18_l%d.v", fileNo)
@@ -677,7 +679,7 @@ func TestC18(t *testing.T) {
 			"Definition MG := Eval vm_compute in flat_map group_grammar groups.\nPrint MG.\n"
 		require.NoError(t, os.WriteFile(filepath.Join(out, name), []byte(body), 0o644))
 	}
-	w := &rowsWriter{}
+	w := &c18Rows{}
 	var gl []string
 	for _, gk := range gkeys {
 		parts := strings.SplitN(gk, "/", 2)
@@ -688,11 +690,11 @@ func TestC18(t *testing.T) {
 			for sz := 0; take < len(ss) && sz < room; take++ {
 				sz += 3*len(ss[take]) + 4
 			}
-			gl = append(gl, fmt.Sprintf("(%s%%Z, %s, %s)", parenNeg(parts[0]), obsLit(parts[1][0]), w.rows(ss[:take])))
+			gl = append(gl, fmt.Sprintf("(%s%%Z, %s, %s)", c18ParenNeg(parts[0]), c18ObsLit(parts[1][0]), w.rows(ss[:take])))
 			ss = ss[take:]
 			if w.sb.Len() >= 450000 {
 				flush(w, gl)
-				w, gl = &rowsWriter{}, nil
+				w, gl = &c18Rows{}, nil
 			}
 		}
 	}
@@ -733,7 +735,7 @@ func TestC18(t *testing.T) {
 			}
 		})
 		famSizes[f.name] = cnt
-		w := &rowsWriter{}
+		w := &c18Rows{}
 		accR, fltR := w.rows(acc), w.rows(flt)
 		body := c18Header + w.sb.String() +
 			"Definition fam : family := " + f.coq(accR, fltR) + ".\n" +
@@ -754,7 +756,8 @@ func TestC18(t *testing.T) {
 		{"addRecord", []any{"add.com", int64(1), "1.2.3.256"}},
 		{"addRecord", []any{"add.com", int64(1), "1.2.3.4x"}},
 		{"addRecord", []any{"add.com", int64(1), "10.0.0.1"}},
-		{"addRecord", []any{"add.com", int64(28), "2003:1:2:3:4:5:6::"}},
+		{"addRecord", []any{"add.com", int64(28), "::1:2:3:4:5:6:7"}},
+		{"addRecord", []any{"add.com", int64(28), "2003:1:2:3::5:6:7:8"}},
 		{"addRecord", []any{"add.com", int64(28), "2003:g::1"}},
 		{"addRecord", []any{"add.com", int64(28), "2001:db8::1"}},
 		{"addRecord", []any{"add.com", int64(16), strings.Repeat("x", 256)}},
@@ -780,8 +783,8 @@ func TestC18(t *testing.T) {
 		after := n.StorageDump(n.nns)
 		st.OpHistogram[c.method+"(persisted)"]++
 		st.Evaluations++
-		if r.Halt || len(r.Events) != 0 || !sameDump(before, after) {
-			st.AddViolation(fmt.Sprintf("%s%v: halt=%v, storage changed=%v", c.method, c.args, r.Halt, !sameDump(before, after)), map[string]any{"method": c.method, "args": fmt.Sprint(c.args)})
+		if r.Halt || len(r.Events) != 0 || !c18SameDump(before, after) {
+			st.AddViolation(fmt.Sprintf("%s%v: halt=%v, storage changed=%v", c.method, c.args, r.Halt, !c18SameDump(before, after)), map[string]any{"method": c.method, "args": fmt.Sprint(c.args)})
 		}
 		inert++
 	}
@@ -789,13 +792,13 @@ func TestC18(t *testing.T) {
 	for _, c := range []struct {
 		typ  int64
 		data string
-	}{{1, "223.255.255.254"}, {28, "2001:8000::1"}, {16, strings.Repeat("x", 255)}, {5, "a-b.c0"}} {
+	}{{1, "223.255.255.254"}, {28, "2001:8000::1"}, {28, "2003:1:2:3:4:5:6::"}, {16, strings.Repeat("x", 255)}, {5, "a-b.c0"}} {
 		before := n.StorageDump(n.nns)
 		r := n.Invoke([]neotest.Signer{n.owner}, n.nns, "addRecord", "add.com", c.typ, c.data)
 		after := n.StorageDump(n.nns)
 		st.OpHistogram["addRecord(persisted)"]++
 		st.Evaluations++
-		if !r.Halt || sameDump(before, after) {
+		if !r.Halt || c18SameDump(before, after) {
 			st.AddViolation(fmt.Sprintf("addRecord(%d, %q) was not stored: %s", c.typ, c.data, r.Fault), map[string]any{"type": c.typ, "data": c.data})
 		}
 	}
@@ -810,21 +813,22 @@ func TestC18(t *testing.T) {
 	st.Extra["fault_messages_inside_check"] = n.faults
 	st.Extra["inert_rejections_checked_on_persisted_transactions"] = inert
 	st.Samples = []any{
-		map[string]any{"call": "addRecord(add.com, AAAA, \"2003:1:2:3:4:5:6::\")", "observed": "FAULT invalid record data (finding F12)"},
+		map[string]any{"call": "addRecord(add.com, AAAA, \"2003:1:2:3:4:5:6::\")", "observed": "HALT, record stored (F12 repaired)"},
+		map[string]any{"call": "addRecord(add.com, AAAA, \"::1:2:3:4:5:6:7\")", "observed": "FAULT invalid record data (nine fragments, not global unicast)"},
 		map[string]any{"call": "addRecord(add.com, A, \"+1.2.3.4\")", "observed": "FAULT invalid record data (F10 repaired)"},
 		map[string]any{"call": "isAvailable(\"a-.z\")", "observed": "FAULT invalid domain fragment"},
 	}
 	st.Write()
 }
 
-func parenNeg(s string) string {
+func c18ParenNeg(s string) string {
 	if strings.HasPrefix(s, "-") {
 		return "(" + s + ")"
 	}
 	return s
 }
 
-func sameDump(a, b map[string]string) bool {
+func c18SameDump(a, b map[string]string) bool {
 	if len(a) != len(b) {
 		return false
 	}
